@@ -186,7 +186,7 @@ where
     }
 
     fn is_zero(&self) -> subtle::Choice {
-        self.c0.is_zero() & self.c1.is_zero()
+        self.c0.is_zero() & self.c1.is_zero() & self.c2.is_zero()
     }
 
     fn square(&self) -> Self {
